@@ -669,7 +669,7 @@ theorem refine_callableG :
       cases cb with
       | stage sins souts =>
         simp only [hl] at hstore
-        have hs := hstore ⟨path, callee, cins, []⟩ (by simp)
+        have hs := hstore ⟨path, callee, cins, [], []⟩ (by simp)
         refine ⟨?_, ?_, ?_⟩
         · intro f
           simp only [evalRT, projPath]
